@@ -8,26 +8,26 @@ from . import C08, C10, handler, proxyplugin
 
 SV = 'proxy/http/proxy/server.py'
 HH = 'proxy/http/handler.py'
-ASSUMPTIONS = ['plugin load order (defaults, auth, requested) is Plugins.load / FlagParser.initialize: not under contract here',
-               '"each hook receives the request returned by the previous one" is visible in the source (self.request = r) '
-               'but object identity of requests is not tracked by a ghost']
+ASSUMPTIONS = ['plugin load order (defaults, auth, requested) is Plugins.load / FlagParser.initialize: not under contract here']
 DV = 'dvals(keys(self.plugins), mapof(self.plugins), %s)'
 
 
 def build(reg):
     from . import externs
     externs.add_dict_values(reg)
+    from . import C04
     T10 = C10.build(reg)
-    T = C08.build(reg)
+    T4 = C04.build(reg)         # = C08's contracts + the follow-up chain of on_client_data (hook logging already in place)
+    T = [reg.contracts[n] for n in ('AuthPlugin.before_upstream_connection', 'HttpParser.del_header', 'HttpParser.del_headers',
+                                    'HttpProxyPlugin.on_request_complete')]
+    T += [c for c in T4 if c.qualname == 'HttpProxyPlugin.on_client_data']
     orc = reg.contracts['HttpProxyPlugin.on_request_complete']
     bu = reg.contracts['ProxyBasePlugin.before_upstream_connection']
     bu.ghost_init = dict(bu.ghost_init, bu_log=('seq', 'int'))
     bu.ensures = bu.ensures + [('logged', 'bu_log == old(bu_log) + [self]')]
     bu.raises = {'Exception': bu.raises['Exception'] + [('logged', 'bu_log == old(bu_log) + [self]')]}
-    hc = reg.contracts['ProxyBasePlugin.handle_client_request']
-    hc.ghost_init = dict(hc.ghost_init, hc_log=('seq', 'int'))
-    hc.ensures = hc.ensures + [('logged', 'hc_log == old(hc_log) + [self]')]
-    hc.raises = {'Exception': [('logged', 'hc_log == old(hc_log) + [self]')]}
+    hc = reg.contracts['ProxyBasePlugin.handle_client_request']      # C04 already logs every call in hc_log (normal and raising exits)
+    assert any(nm == 'logged' for nm, _ in hc.ensures)
     orc.ghost_init = dict(orc.ghost_init, bu_log=('seq', 'int'), hc_log=('seq', 'int'))
     N = 'len(self.plugins)'
     orc.ensures = orc.ensures + [
